@@ -5,9 +5,9 @@ use crate::ops_action::parser_for;
 use crate::ops_basic::matcher_for;
 use std::collections::HashMap;
 use tower_lsp::lsp_types::{Position, Url};
-use version_lsp::lsp::code_action::{PackageIndex, generate_bump_code_actions};
+use version_lsp::lsp::code_action::{PackageIndex, generate_bump_code_actions, locate_version_in_token};
 use version_lsp::lsp::diagnostics::generate_diagnostics;
-use version_lsp::parser::types::RegistryType;
+use version_lsp::parser::types::{PackageInfo, RegistryType};
 use version_lsp::version::cache::PackageId;
 use version_lsp::version::checker::VersionStorer;
 use version_lsp::version::error::CacheError;
@@ -46,6 +46,18 @@ fn storer(f: &[String]) -> AnyStorer {
 pub fn dispatch(op: &str, f: &[String]) -> Option<String> {
     Some(match op {
         // fz.doc <eco> <text> <storer…> : "p=<packages> d=<diagnostics> a=<actions offered over all probed positions> pos=<positions probed>"
+        // diag.ranges <eco> <text> : the ranges of the diagnostics generate_diagnostics produces when NO declared version exists
+        // (every package with a valid or invalid spec gets an error diagnostic): "n=<packages> <line>:<c1>-<c2>;…"
+        "diag.ranges" => {
+            let parser = parser_for(&f[0]);
+            let matcher = matcher_for(&f[0]);
+            let text = &f[1];
+            let st = AnyStorer { latest: Some("0.0.0-verif.none".into()), versions: vec!["0.0.0-verif.none".into()], tags: HashMap::new() };
+            let n = parser.parse(text).map(|p| p.len()).unwrap_or(0);
+            let diags = generate_diagnostics(&*parser, &*matcher, &st, text);
+            let ds: Vec<String> = diags.iter().map(|d| format!("{}:{}-{}:{}", d.range.start.line, d.range.start.character, d.range.end.line, d.range.end.character)).collect();
+            format!("n={} {}", n, ds.join(";"))
+        }
         "fz.doc" => {
             let parser = parser_for(&f[0]);
             let matcher = matcher_for(&f[0]);
@@ -54,7 +66,9 @@ pub fn dispatch(op: &str, f: &[String]) -> Option<String> {
             let pkgs = parser.parse(text).unwrap_or_default();
             let diags = generate_diagnostics(&*parser, &*matcher, &st, text);
             let uri = Url::parse("file:///w/doc").unwrap();
-            let index = PackageIndex::new(&pkgs);
+            // as the handler does: packages are pointed at their version text, columns in UTF-16 units
+            let located: Vec<PackageInfo> = pkgs.iter().filter_map(|p| locate_version_in_token(p, text)).collect();
+            let index = PackageIndex::new(&located);
             let mut acts = 0usize;
             let mut probed = 0usize;
             // every package's own range (start, middle, end, one past), plus every line at columns 0 and 10_000
